@@ -37,7 +37,9 @@ fn run_hist(h: &[Line]) -> (Vec<String>, String) {
 fn probes(ids: &[Option<u8>]) -> Vec<Line> {
     let mut v = Vec::new();
     for id in ids {
-        for (n, k) in [(2u8, 2u8), (3, 2), (3, 3), (4, 3), (4, 4)] {
+        // the last three are outside 1 <= k <= n: whatever they return must not depend on
+        // an inert line either
+        for (n, k) in [(2u8, 2u8), (3, 2), (3, 3), (4, 3), (4, 4), (0, 1), (0, 2), (2, 3)] {
             v.push((nmea_ref::mk(n, k, *id, b"PROBE;", 0), false));
         }
     }
@@ -375,8 +377,8 @@ pub fn stream(r: &mut Rng, salt: u64) -> Vec<Line> {
     let mut h = Vec::new();
     let groups = r.usize(1, 4);
     let mut ctr = salt * 1000;
-    for _ in 0..groups {
-        let n = r.range(2, 4) as u8;
+    for g in 0..groups {
+        let n = if g == 0 && r.chance(1, 6) { r.range(5, 255) as u8 } else { r.range(2, 4) as u8 };
         // all streams deliberately use the same ids: a shared buffer would mix them up
         let id = Some(1);
         for k in 1..=n {
